@@ -17,10 +17,10 @@ Definition EXP_CHECK_USER := ["VerifEnabled"; "Err UnsupportedOption"; "UvCheck"
 Definition EXP_GET_INFO := ["StoreInfo"; "VerifEnabled"; "PresenceEnabled"].
 Definition EXP_MAKE_CREDENTIAL :=
   ["CheckUser"; "Err InvalidOption"; "Find"; "Err CredentialExcluded"; "ChooseAlg"; "GetInfo"; "Err UnsupportedOption";
-   "PinAuth"; "Err UnsupportedOption"; "Rand"; "KeyGen"; "MakeExt"; "StoreInfo"; "Save"].
+   "PinAuth"; "Err UnsupportedOption"; "Rand"; "KeyGen"; "MakeExt"; "StoreInfo"; "CounterStart0"; "NewAuthData"; "Save"].
 Definition EXP_GET_ASSERTION :=
   ["Find"; "Err NoCredentials"; "PinAuth"; "Err PinAuthInvalid"; "Err UnsupportedOption"; "CheckUser"; "Err NoCredentials";
-   "Update"; "GetExt"; "PrivKey"; "Sign"].
+   "SatAdd1"; "Update"; "GetExt"; "NewAuthData"; "PrivKey"; "Sign"].
 Definition EXP_U2F_REGISTER := ["KeyGen"; "Sign"; "Save"; "Err Other"].
 Definition EXP_U2F_AUTHENTICATE := ["Find"; "Err Other"; "Err Other"; "Err Other"; "PrivKey"; "Err Other"; "Sign"].
 
@@ -186,17 +186,17 @@ Proof.
     assert (AR : follows (skeleton (skipn 7 EXP_MAKE_CREDENTIAL)) (mc_after_rk c q flags alg)).
     { unfold mc_after_rk. destruct (mc_pin_auth q); [exact I|].
       change (skeleton (skipn 7 EXP_MAKE_CREDENTIAL))
-        with (["PinAuth"; "Err UnsupportedOption"; "Rand"; "KeyGen"] ++ (skeleton ["MakeExt"] ++ ["StoreInfo"; "Save"])).
+        with (["PinAuth"; "Err UnsupportedOption"; "Rand"; "KeyGen"] ++ (skeleton ["MakeExt"] ++ ["StoreInfo"; "CounterStart0"; "NewAuthData"; "Save"])).
       unfold rand at 1. cbn [bind follows]. 
-      let r := eval vm_compute in (drop_until (kind (ERand (c_id_len c))) (["PinAuth"; "Err UnsupportedOption"; "Rand"; "KeyGen"] ++ (skeleton ["MakeExt"] ++ ["StoreInfo"; "Save"]))) in
-        change (drop_until (kind (ERand (c_id_len c))) (["PinAuth"; "Err UnsupportedOption"; "Rand"; "KeyGen"] ++ (skeleton ["MakeExt"] ++ ["StoreInfo"; "Save"]))) with r.
+      let r := eval vm_compute in (drop_until (kind (ERand (c_id_len c))) (["PinAuth"; "Err UnsupportedOption"; "Rand"; "KeyGen"] ++ (skeleton ["MakeExt"] ++ ["StoreInfo"; "CounterStart0"; "NewAuthData"; "Save"]))) in
+        change (drop_until (kind (ERand (c_id_len c))) (["PinAuth"; "Err UnsupportedOption"; "Rand"; "KeyGen"] ++ (skeleton ["MakeExt"] ++ ["StoreInfo"; "CounterStart0"; "NewAuthData"; "Save"]))) with r.
       cbv iota. intros a1. destruct a1; try exact I. cbn [bind].
       unfold keygen at 1. cbn [bind follows].
       match goal with |- match drop_until ?s ?sk with _ => _ end =>
         let r := eval vm_compute in (drop_until s sk) in change (drop_until s sk) with r end.
       cbv iota. intros a2. destruct a2; try exact I. cbn [bind].
-      change (["Hmac"; "Hmac"; "Rand"; "Rand"; "Hmac"; "Hmac"; "StoreInfo"; "Save"]) with (["Hmac"; "Hmac"] ++ (skeleton ["MakeExt"] ++ ["StoreInfo"; "Save"])) || idtac.
-      match goal with |- follows ?sk _ => change sk with (skeleton ["MakeExt"] ++ ["StoreInfo"; "Save"]) end.
+      change (["Hmac"; "Hmac"; "Rand"; "Rand"; "Hmac"; "Hmac"; "StoreInfo"; "Save"]) with (["Hmac"; "Hmac"] ++ (skeleton ["MakeExt"] ++ ["StoreInfo"; "CounterStart0"; "NewAuthData"; "Save"])) || idtac.
+      match goal with |- follows ?sk _ => change sk with (skeleton ["MakeExt"] ++ ["StoreInfo"; "CounterStart0"; "NewAuthData"; "Save"]) end.
       apply follows_bind; [apply make_extensions_follows|].
       intros [[cred_ext unsigned]|e]; [|exact I]. calls. walk. }
     destruct (o_rk (mc_opts q)).
@@ -346,4 +346,21 @@ Theorem source_secret_provenance :
   /\ first_pos "Update" SRC_CALCULATE_HMAC_SECRET = None
   (* the missing non-gated secret is an error before any HMAC is computed *)
   /\ before "Err UserVerificationBlocked" "Hmac" SRC_CALCULATE_HMAC_SECRET = true.
+Proof. vm_compute. repeat split. Qed.
+
+(** *** counters in the source as it is now: the only arithmetic of the ceremonies is the one saturating increment of an
+    assertion, it happens before the store is asked to keep the value and before the authenticator data that reports
+    it is built; a registration starts a counter at zero and builds its authenticator data before the save *)
+Theorem source_counter_facts :
+  before "SatAdd1" "Update" SRC_GET_ASSERTION = true
+  /\ before "Update" "NewAuthData" SRC_GET_ASSERTION = true
+  /\ before "NewAuthData" "Sign" SRC_GET_ASSERTION = true
+  /\ count_occ string_dec SRC_GET_ASSERTION "SatAdd1" = 1%nat
+  /\ count_occ string_dec SRC_GET_ASSERTION "Update" = 1%nat
+  /\ first_pos "Arith" SRC_GET_ASSERTION = None /\ first_pos "Arith" SRC_MAKE_CREDENTIAL = None
+  /\ first_pos "Arith" SRC_U2F_REGISTER = None /\ first_pos "Arith" SRC_U2F_AUTHENTICATE = None
+  /\ first_pos "Arith" SRC_CHECK_USER = None
+  /\ first_pos "SatAdd1" SRC_MAKE_CREDENTIAL = None /\ first_pos "SatAdd1" SRC_U2F_AUTHENTICATE = None
+  /\ before "CounterStart0" "NewAuthData" SRC_MAKE_CREDENTIAL = true
+  /\ before "NewAuthData" "Save" SRC_MAKE_CREDENTIAL = true.
 Proof. vm_compute. repeat split. Qed.
